@@ -137,7 +137,8 @@ def M11.tagAfter (m : M11) : TReq → Option Nat
 def M11.step (m : M11) (s : TStep) : M11 :=
   let m := { m with lastTag := m.tagAfter s.req }
   let bad := s.obs.any (staleStart m.lastTag)
-  if bad then { m with fails := m.fails ++ ["C11:file-started-with-stale-threshold-or-background"] } else m
+  if bad then { m with fails := m.fails ++ ["C11:file-started-with-stale-threshold-or-background",
+                                           "C06:deferred-start-not-forwarded-with-the-arguments-of-the-latest-start"] } else m
 
 def monC11Thr (tr : List TStep) : List String := (tr.foldl M11.step {}).fails
 
